@@ -7,9 +7,21 @@ symbols) interleaved with evaluations are enumerated; after every operation each
 model value / derived tensor must equal the value of a freshly built copy holding
 the same symbols, for all values (a stale cache still mentions the old symbols).
 "A parameter update never raises" is part of every run.
+
+Observer-subset histories: only one observer (thorough: also two) is evaluated before /
+between / after the updates.  In the `variational` graph the observers are the variational
+objectives, which read their variational distribution through rsample() / sample() /
+entropy() and not (or not only) through __call__: the models in the middle of the
+notification chain (Distribution, JointDistributionModel, DeterministicNormal) then hold an
+invalid cache - never called since construction - while the objective listening to them
+holds a valid one, and every notification has to pass through them all the same.  Draws use
+common random numbers (one tensor of noise symbols per result shape), so that a cached
+objective and the value of a freshly built copy are comparable.
 """
 from __future__ import annotations
 
+import contextlib
+import io
 import itertools
 import math
 import sys
@@ -179,7 +191,197 @@ def scenario_timetree():
     return spec, base, evaluators, ops
 
 
-SCENARIOS = {'phylo': scenario_phylo, 'smoothing': scenario_smoothing, 'timetree': scenario_timetree}
+S_DRAWS = 2  # Monte-Carlo sample count of the objectives
+
+
+def scenario_variational():
+    """Models that are read through something else than __call__: the variational objectives read their variational
+    distribution through rsample()/sample()/entropy() (ELBO with entropy=True never calls q()), a JointDistributionModel
+    used as variational distribution forwards rsample()/entropy() to its members, DeterministicNormal draws from a
+    noise tensor fixed at construction.  A model in the middle of the notification chain can therefore hold an INVALID
+    cache (never called since construction / since the last update) while the objective listening to it holds a valid
+    one; every later notification has to pass through it all the same.  The variational parameters are reached
+    through views (q_loc, q2_loc of `locs`) and through an Exp-transformed scale (as the CLI emits them)."""
+    S = S_DRAWS
+
+    def normal(id_, x, loc, scale):
+        return {'id': id_, 'type': 'Distribution', 'distribution': 'torch.distributions.Normal', 'x': x,
+                'parameters': {'loc': loc, 'scale': scale}}
+
+    def objective(id_, type_, samples, q='var', p='joint', **kw):
+        o = {'id': id_, 'type': type_, 'samples': samples, 'variational': q, 'joint': p}
+        o.update(kw)
+        return o
+
+    spec = [
+        {'id': 'locs', 'type': 'Parameter', 'tensor': [0.1, 0.2, -0.3]},
+        {'id': 'q_loc', 'type': 'ViewParameter', 'parameter': 'locs', 'indices': '0:2'},
+        {'id': 'q2_loc', 'type': 'ViewParameter', 'parameter': 'locs', 'indices': '2:3'},
+        {'id': 'q_logscale', 'type': 'Parameter', 'tensor': [-0.2, 0.3]},
+        {'id': 'q_scale', 'type': 'TransformedParameter', 'transform': 'torch.distributions.ExpTransform', 'x': 'q_logscale'},
+        {'id': 'x', 'type': 'Parameter', 'tensor': [0.5, 1.5]},
+        {'id': 'z_unc', 'type': 'Parameter', 'tensor': [0.3]},
+        {'id': 'z', 'type': 'TransformedParameter', 'transform': 'torch.distributions.ExpTransform', 'x': 'z_unc'},
+        normal('q', 'x', 'q_loc', 'q_scale'),
+        normal('q2', 'z_unc', 'q2_loc', {'id': 'q2_scale', 'type': 'Parameter', 'tensor': [0.7]}),
+        {'id': 'var', 'type': 'JointDistributionModel', 'distributions': ['q', 'q2']},
+        normal('prior_x', 'x', {'id': 'p_loc', 'type': 'Parameter', 'tensor': [0.0]}, {'id': 'p_scale', 'type': 'Parameter', 'tensor': [3.0]}),
+        {'id': 'prior_z', 'type': 'Distribution', 'distribution': 'torch.distributions.LogNormal', 'x': 'z',
+         'parameters': {'loc': {'id': 'pz_loc', 'type': 'Parameter', 'tensor': [0.4]},
+                        'scale': {'id': 'pz_scale', 'type': 'Parameter', 'tensor': [1.25]}}},
+        {'id': 'joint', 'type': 'JointDistributionModel', 'distributions': ['prior_x', 'prior_z', 'z']},
+        objective('elbo', 'ELBO', [S]),
+        objective('elbo_ent', 'ELBO', [S], entropy=True),
+        objective('elbo_ms', 'ELBO', [S, 2]),
+        objective('elbo_score', 'ELBO', [S], score=True),
+        objective('klpq', 'KLpq', [S]),
+        objective('klpqi', 'KLpqImportance', [S]),
+        objective('vr', 'VR', [S], alpha=0.5),
+        objective('cubo', 'CUBO', [S], n=2.0),
+        # a single Distribution (not a joint) as variational distribution: same variational parameters (view, transformed
+        # scale) and prior hyper-parameters, its own variable u (drawing x without z_unc would mix sample shapes in `var`)
+        normal('qu', {'id': 'u', 'type': 'Parameter', 'tensor': [0.4, -0.6]}, 'q_loc', 'q_scale'),
+        normal('prior_u', 'u', 'p_loc', 'p_scale'),
+        objective('elbo_q', 'ELBO', [S], q='qu', p='prior_u', entropy=True),
+        # DeterministicNormal: noise fixed at construction
+        {'id': 'dq', 'type': 'DeterministicNormal', 'x': {'id': 'w', 'type': 'Parameter', 'tensor': [0.2]}, 'shape': [S],
+         'loc': {'id': 'dn_loc', 'type': 'Parameter', 'tensor': [0.1]},
+         'scale': {'id': 'dn_scale', 'type': 'Parameter', 'tensor': [0.6]}},
+        normal('prior_w', 'w', {'id': 'pw_loc', 'type': 'Parameter', 'tensor': [0.0]}, {'id': 'pw_scale', 'type': 'Parameter', 'tensor': [2.0]}),
+        objective('elbo_dn', 'ELBO', [S], q='dq', p='prior_w'),
+        objective('elbo_dn_ent', 'ELBO', [S], q='dq', p='prior_w', entropy=True),
+    ]
+    base = {'locs': [0.1, 0.2, -0.3], 'q_logscale': [-0.2, 0.3], 'q2_scale': [0.7], 'x': [0.5, 1.5], 'z_unc': [0.3],
+            'p_loc': [0.0], 'p_scale': [3.0], 'pz_loc': [0.4], 'pz_scale': [1.25], 'w': [0.2], 'dn_loc': [0.1], 'dn_scale': [0.6],
+            'pw_loc': [0.0], 'pw_scale': [2.0], 'u': [0.4, -0.6]}
+    evaluators = {
+        # accessor observers first: they see the state the update left; every objective re-draws x, z_unc, w
+        'var.entropy()': lambda D: D['var'].entropy(),
+        'q.entropy()': lambda D: D['q'].entropy(),
+        'q.log_prob(x)': lambda D: D['q'].log_prob(D['x']),
+        'var()': lambda D: D['var'](),
+        'q()': lambda D: D['q'](),
+        'joint()': lambda D: D['joint'](),
+        'q_scale.tensor': lambda D: D['q_scale'].tensor,
+        'q_loc.tensor [view]': lambda D: D['q_loc'].tensor,
+        'x.tensor': lambda D: D['x'].tensor,
+        'elbo()': lambda D: D['elbo'](),
+        'elbo_ent() [entropy=True]': lambda D: D['elbo_ent'](),
+        'elbo_ms() [multi-sample]': lambda D: D['elbo_ms'](),
+        'elbo_score() [score=True]': lambda D: D['elbo_score'](),
+        'klpq()': lambda D: D['klpq'](),
+        'klpqi()': lambda D: D['klpqi'](),
+        'vr()': lambda D: D['vr'](),
+        'cubo()': lambda D: D['cubo'](),
+        'elbo_q() [entropy=True, single Distribution]': lambda D: D['elbo_q'](),
+        'elbo_dn() [DeterministicNormal]': lambda D: D['elbo_dn'](),
+        'elbo_dn_ent() [DeterministicNormal, entropy=True]': lambda D: D['elbo_dn_ent'](),
+    }
+    ops = {
+        'assign locs (parent of the q_loc / q2_loc views)': ('assign', 'locs', (-1.0, 1.0)),
+        'assign through the q_loc view': ('assign', 'q_loc', (-1.0, 1.0)),
+        'assign through the q2_loc view': ('assign', 'q2_loc', (-1.0, 1.0)),
+        'assign q_logscale (under the Exp transform)': ('assign', 'q_logscale', (-1.0, 0.7)),
+        'assign through the transformed q_scale': ('assign', 'q_scale', (0.3, 2.0)),
+        'in-place write into q_logscale + fire_parameter_changed': ('inplace', 'q_logscale', (-1.0, 0.7)),
+        'in-place write into locs + fire_parameter_changed': ('inplace', 'locs', (-1.0, 1.0)),
+        'assign q2_scale': ('assign', 'q2_scale', (0.3, 2.0)),
+        'assign prior hyper-parameter p_scale': ('assign', 'p_scale', (0.5, 4.0)),
+        'assign prior hyper-parameter pz_loc': ('assign', 'pz_loc', (-1.0, 1.0)),
+        'assign dn_loc': ('assign', 'dn_loc', (-1.0, 1.0)),
+        'in-place write into dn_scale + fire_parameter_changed': ('inplace', 'dn_scale', (0.3, 2.0)),
+        'assign x (the sampled variable)': ('assign', 'x', (-2.0, 2.0)),
+        'var.rsample([3]) (draw by the joint variational distribution)': ('draw', 'var', ('rsample', (3,))),
+        'var.sample([4]) (draw by the joint variational distribution)': ('draw', 'var', ('sample', (4,))),
+    }
+    return spec, base, evaluators, ops
+
+
+# which base parameters an observed value of the variational scenario depends on (the sampled variables x, z_unc, w
+# are re-drawn by every objective, so an objective does not depend on their current value).  Used for the vacuity
+# guard of the single-observer histories: an update of a parameter in DEPENDS[observer] must be able to change the value.
+_MAIN = {'locs[q]', 'locs[q2]', 'q_logscale', 'q2_scale', 'p_scale', 'pz_loc'}
+DEPENDS = {
+    'elbo()': _MAIN, 'elbo_ent() [entropy=True]': _MAIN, 'elbo_ms() [multi-sample]': _MAIN,
+    'elbo_score() [score=True]': _MAIN, 'klpq()': _MAIN, 'klpqi()': _MAIN, 'vr()': _MAIN, 'cubo()': _MAIN,
+    'elbo_q() [entropy=True, single Distribution]': {'locs[q]', 'q_logscale', 'p_scale'},
+    'elbo_dn() [DeterministicNormal]': {'dn_loc', 'dn_scale'},
+    'elbo_dn_ent() [DeterministicNormal, entropy=True]': {'dn_loc', 'dn_scale'},
+    'var.entropy()': {'q_logscale', 'q2_scale'}, 'q.entropy()': {'q_logscale'},
+    'q.log_prob(x)': {'locs[q]', 'q_logscale', 'x'}, 'q()': {'locs[q]', 'q_logscale', 'x'},
+    'var()': {'locs[q]', 'locs[q2]', 'q_logscale', 'q2_scale', 'x'}, 'joint()': {'p_scale', 'pz_loc', 'x'},
+    'q_scale.tensor': {'q_logscale'}, 'q_loc.tensor [view]': {'locs[q]'}, 'x.tensor': {'x'},
+}
+WRITES = {  # operation target -> parameters written
+    'locs': {'locs[q]', 'locs[q2]'}, 'q_loc': {'locs[q]'}, 'q2_loc': {'locs[q2]'}, 'q_logscale': {'q_logscale'},
+    'q_scale': {'q_logscale'}, 'q2_scale': {'q2_scale'}, 'p_scale': {'p_scale'}, 'pz_loc': {'pz_loc'}, 'dn_loc': {'dn_loc'},
+    'dn_scale': {'dn_scale'}, 'x': {'x'}, 'var': {'x'}, 'q': {'x'},
+}
+
+SCENARIOS = {'phylo': scenario_phylo, 'smoothing': scenario_smoothing, 'timetree': scenario_timetree,
+             'variational': scenario_variational}
+STOCHASTIC = {'variational'}  # scenarios whose observers draw: sampler stub installed
+
+
+# ------------------------------------------------------------------ sampler stub (common random numbers)
+def _generic_noise(shape, tag):
+    n = 1
+    for s in shape:
+        n *= s
+    off = 0.11 * len(tag) + 0.07 * len(shape)
+    return torch.tensor([round(-1.1 + 2.3 * (((i + 1) * 0.6180339887 + off + 0.013 * n) % 1.0), 2) for i in range(n)],
+                        dtype=torch.float64).reshape(shape)
+
+
+def _noise_name(shape, tag):
+    return f'{tag}_' + 'x'.join(map(str, shape))
+
+
+def symbolic_noise(shape, tag='eps'):
+    """ONE tensor of symbols per (tag, shape) and trace: every draw of that shape uses the same base noise, in the
+    model under test and in the freshly built copy alike, so that a cached objective and a recomputed one are
+    comparable; the noise itself is universally quantified."""
+    t = cur()
+    store = t.__dict__.setdefault('_c11_noise', {})
+    key = (tag, tuple(shape))
+    if key not in store:
+        store[key] = new_vars(_noise_name(shape, tag), _generic_noise(tuple(shape), tag))
+    return store[key]
+
+
+def concrete_noise(vals):
+    def f(shape, tag='eps'):
+        g = _generic_noise(tuple(shape), tag).reshape(-1).tolist()
+        names = cm.names_shaped(_noise_name(shape, tag), tuple(shape))
+        return torch.tensor([vals.get(nm, dflt) for nm, dflt in zip(names, g)], dtype=torch.float64).reshape(tuple(shape))
+
+    return f
+
+
+@contextlib.contextmanager
+def sampler_stub(noise):
+    """torch.distributions.Normal.rsample / .sample = loc + noise(shape) * scale (sample: under no_grad)."""
+    N = torch.distributions.Normal
+    saved = {m: N.__dict__.get(m) for m in ('rsample', 'sample')}
+
+    def rsample(self, sample_shape=torch.Size()):
+        shape = tuple(self._extended_shape(torch.Size(sample_shape)))
+        return self.loc + noise(shape) * self.scale
+
+    def sample(self, sample_shape=torch.Size()):
+        shape = tuple(self._extended_shape(torch.Size(sample_shape)))
+        with torch.no_grad():
+            return self.loc + noise(shape) * self.scale
+
+    N.rsample, N.sample = rsample, sample
+    try:
+        yield
+    finally:
+        for m, old in saved.items():
+            if old is None:
+                delattr(N, m)
+            else:
+                setattr(N, m, old)
 
 
 # ------------------------------------------------------------------ machinery
@@ -221,13 +423,22 @@ def build(name):
     import torchtree.evolution.tree_likelihood  # noqa
     from torchtree.core.utils import process_objects
 
+    import torchtree.distributions.deterministic_normal  # noqa
+    import torchtree.variational  # noqa
+
     spec, base, evaluators, ops = SCENARIOS[name]()
     dic = {}
     for obj in spec:
         process_objects(obj, dic)
     if 'subst' in dic:
         install_p_stub(dic['subst'])
+    if 'dq' in dic:
+        # DeterministicNormal draws its noise at construction: the noise of every copy = the same symbols
+        dic['dq'].eps = symbolic_noise(tuple(dic['dq'].eps.shape), 'dn_eps')
     return dic, base, evaluators, ops
+
+
+ROUND_WITNESS = False  # set for the variational scenario: short decimals keep the ground guard queries small
 
 
 def fresh_values(counter, pname, shape, rng):
@@ -237,6 +448,8 @@ def fresh_values(counter, pname, shape, rng):
         n *= s
     k = next(counter)
     vals = [lo + (hi - lo) * ((0.37 + 0.61803 * (k * 7 + i)) % 1.0) for i in range(n)]
+    if ROUND_WITNESS:
+        vals = [round(v, 3) for v in vals]
     if pname == 'tree.heights':
         vals = sorted(vals)
     return new_vars(f'v{k}_{pname}', torch.tensor(vals, dtype=torch.float64).reshape(shape))
@@ -270,6 +483,11 @@ def apply_op(dic, op, counter, dom):
             obj.rsample()
         finally:
             obj.dist.rsample = saved
+    elif kind == 'draw':
+        # draw through the model's own rsample()/sample() (sampler stub: loc + noise * scale); a sample shape no
+        # objective uses, hence noise symbols that no cached value mentions
+        meth, shape = rng
+        getattr(obj, meth)(torch.Size(shape))
     elif kind == 'op_reject':
         oper = opmod.ScalerOperator('scaler', [obj], 1.0, 0.24, 0.5)
         u = new_vars(f'v{next(counter)}_u', torch.tensor([0.4]))
@@ -288,6 +506,18 @@ def apply_op(dic, op, counter, dom):
         raise KeyError(kind)
 
 
+def strip_stops(d, node):
+    """C11 compares VALUES: a value computed under no_grad / detach() (ELBO(score=True) evaluates and thereby caches the
+    joint under torch.no_grad()) carries `stop` nodes, which are the identity on values (and in the SMT encoding).  They
+    are removed so that the DAG's own simplifications (log(exp a) = a) see through them."""
+    for _ in range(64):
+        stops = {i: d.args[i][0] for i in d.topo([node]) if d.ops[i] == 'stop'}
+        if not stops:
+            break
+        node = d.substitute([node], stops)[0]
+    return node
+
+
 def flat_ids(d, x):
     if isinstance(x, SymTensor):
         return x._ids.reshape(-1).tolist()
@@ -296,18 +526,76 @@ def flat_ids(d, x):
     raise TypeError(type(x))
 
 
+def as_tuple(only):
+    if not only:
+        return ()
+    return (only,) if isinstance(only, str) else tuple(only)
+
+
+def make_label(scen, history, only):
+    onlys = as_tuple(only)
+    return f'{scen}: ' + ' ; '.join(history) + (' [only ' + ' + '.join(f'"{o}"' for o in onlys) + ' is evaluated between updates]'
+                                                if onlys else '')
+
+
+def parse_label(label):
+    scen, rest = label.split(': ', 1)
+    onlys = ()
+    if rest.endswith(' is evaluated between updates]'):
+        rest, tail = rest.rsplit(' [only ', 1)
+        tail = tail[:-len(' is evaluated between updates]')]
+        onlys = tuple(x.strip('"') for x in tail.split('" + "'))
+    return scen, tuple(rest.split(' ; ')), onlys
+
+
 def run_task(task, tr):
+    scen = task[0]
+    if scen in STOCHASTIC:
+        import torchtree.distributions.deterministic_normal as dnmod
+        import torchtree.distributions.joint_distribution as jdmod
+        import torchtree.variational as vmod
+        from torchtree.distributions.distributions import Distribution
+
+        tr.fn(vmod.ELBO._call, vmod.KLpq._call, vmod.KLpqImportance._call, vmod.VR._call, vmod.CUBO._call,
+              Distribution.rsample, Distribution.sample, Distribution.entropy, jdmod.JointDistributionModel.rsample,
+              jdmod.JointDistributionModel.sample, jdmod.JointDistributionModel.entropy, dnmod.DeterministicNormal.rsample)
+        tr.stubs.add('torch.distributions.Normal.rsample/.sample = loc + eps * scale (sample: under no_grad) with ONE tensor of '
+                     'universally quantified noise symbols eps per result shape (common random numbers: every draw of that '
+                     'shape, by the model under test and by the freshly built copy, uses the same base noise); '
+                     'DeterministicNormal.eps (drawn at construction) = the same noise symbols in every copy')
+        tr.bounds['variational scenario'] = (
+            f'Monte-Carlo sample shapes [{S_DRAWS}] and [{S_DRAWS},2]; objectives ELBO (default / entropy=True / multi-sample / '
+            'score=True), KLpq, KLpqImportance, VR(alpha=0.5), CUBO(n=2) over a JointDistributionModel of two Normal '
+            'Distributions, ELBO(entropy=True) over a single Distribution, ELBO over DeterministicNormal; SELBO (not exported '
+            'by torchtree.variational), MultivariateNormal, NormalizingFlow and RealNVP are not part of the graph; '
+            'value-dependent decisions (torch.max in CUBO / '
+            'KLpqImportance, argument validation) are path conditions of the witness region')
+        global ROUND_WITNESS
+        ROUND_WITNESS = True
+        try:
+            with sampler_stub(symbolic_noise):
+                return _run_task(task, tr)
+        finally:
+            ROUND_WITNESS = False
+    return _run_task(task, tr)
+
+
+def _run_task(task, tr):
     from torchtree.core import model as coremodel
     from torchtree.core import parameter as coreparam
 
     scen, history = task[0], task[1]
     only = task[2] if len(task) > 2 else None
-    label = f'{scen}: ' + ' ; '.join(history) + (f' [only "{only}" is evaluated between updates]' if only else '')
+    onlys = as_tuple(only)
+    label = make_label(scen, history, only)
     tr.fn(coreparam.Parameter.fire_parameter_changed, coreparam.TransformedParameter.handle_parameter_changed,
           coreparam.CatParameter.handle_parameter_changed, coreparam.ViewParameter.handle_parameter_changed,
           coremodel.CallableModel.__call__, coremodel.CallableModel.handle_parameter_changed,
           coremodel.CallableModel.handle_model_changed)
-    tr.bounds['histories'] = 'all histories of <= 2 (quick) / 3 (thorough, sampled) update operations, each followed by evaluation of every model value'
+    tr.bounds['histories'] = ('all histories of <= 2 (quick) / 3 (thorough, sampled) update operations, each followed by evaluation of '
+                              'every model value; observer-subset histories: only one observer (thorough: also every ordered pair of '
+                              'observers of the variational scenario) is evaluated before / between / after the updates, so that the '
+                              'models it does not read through __call__ keep an invalid cache')
     with tracing() as t:
         d = t.dag
         d.uf_eval.update(p_witness())
@@ -326,9 +614,10 @@ def run_task(task, tr):
                 return
         goals = []
 
-        if only:
-            # only ONE observer is evaluated between the updates (a flag cleared by another accessor is then never reset)
-            evaluators = {only: evaluators[only]}
+        if onlys:
+            # only ONE observer (or a short list) is evaluated between the updates: a flag cleared by another accessor is
+            # then never reset, and a model the observer reads through rsample()/entropy()/... is never called
+            evaluators = {o: evaluators[o] for o in onlys}
 
         def evaluate(D):
             out = {}
@@ -356,16 +645,38 @@ def run_task(task, tr):
                     tr.violation(f'update-raises:{scen}:{oname}', f'{label}: operation "{oname}" raised {type(e).__name__}: {e}',
                                  {'scenario': scen, 'history': list(history)})
                     return
+                B = fresh_copy()  # holds the state the update left (an evaluation may draw, i.e. change x / z_unc / w itself)
                 got = evaluate(A)
-                want = evaluate(fresh_copy())
+                want = evaluate(B)
                 if ops[oname][0] != 'op_reject':
                     cands = []
-                    for en in evaluators:
-                        for x, y in zip(prev[en], got[en]):
-                            if x != y:
-                                cands.append((d.size([x, y]), d.eq(x, y)))
-                    same = min(cands)[1] if cands else d.TRUE
-                    effect_checks.append((step, oname, same))
+                    if onlys and scen in STOCHASTIC:
+                        # single-observer guard: the value a FRESH copy returns after the update can differ from the value
+                        # before it, for every observer that depends on a written parameter (independent of the caches of A)
+                        deps, redrawn = [], False
+                        for en in evaluators:
+                            # an objective over `var` evaluated earlier in the round has re-drawn x: what was written is gone
+                            if (DEPENDS[en] - ({'x'} if redrawn else set())) & WRITES[ops[oname][1]]:
+                                deps.append(en)
+                            redrawn = redrawn or DEPENDS[en] is _MAIN
+                        for en in deps:
+                            if len(prev[en]) != len(want[en]):
+                                cands.append((0, d.FALSE))
+                            for x, y in zip(prev[en], want[en]):
+                                if x != y:
+                                    cands.append((d.size([x, y]), d.eq(x, y)))
+                        if deps:
+                            effect_checks.append((step, oname, [c[1] for c in sorted(cands)] or [d.TRUE]))
+                    else:
+                        for en in evaluators:
+                            for x, y in zip(prev[en], got[en]):
+                                if x != y:
+                                    cands.append((d.size([x, y]), d.eq(x, y)))
+                        if scen in STOCHASTIC:
+                            # x = loc + eps * scale makes (x - loc) / scale syntactically new but equal: try the next candidates
+                            effect_checks.append((step, oname, [c[1] for c in sorted(cands)] or [d.TRUE]))
+                        else:
+                            effect_checks.append((step, oname, [min(cands)[1] if cands else d.TRUE]))
                 prev = got
                 for en in evaluators:
                     a, b = got[en], want[en]
@@ -373,8 +684,15 @@ def run_task(task, tr):
                         goals.append((f'after step {step + 1} ({oname}): {en} has the shape of a fresh rebuild', d.FALSE, [],
                                       f'stale:{scen}:{en}'))
                     else:
-                        goals.append((f'after step {step + 1} ({oname}): {en} == value of a freshly built copy',
-                                      d.and_(*[d.eq(x, y) for x, y in zip(a, b)]), [], f'stale:{scen}:{en}'))
+                        node = d.and_(*[d.eq(x, y) for x, y in zip(a, b)])
+                        if node != d.TRUE:
+                            node = strip_stops(d, node)
+                            if node == d.TRUE and len(tr.notes) < 3:
+                                tr.notes.append(f'{label}: after step {step + 1} the cached {en} equals the fresh value but was '
+                                                'computed under no_grad / detach (it carries no autograd graph): a gradient-level '
+                                                'difference, outside the value statement of C11')
+                        goals.append((f'after step {step + 1} ({oname}): {en} == value of a freshly built copy', node, [],
+                                      f'stale:{scen}:{en}'))
         except Exception as e:
             tr.inconc(f'{label}: harness raised {type(e).__name__}: {e}')
             return
@@ -394,9 +712,38 @@ def run_task(task, tr):
         # comparison with the fresh copy could not see a stale cache
         from symtorch.explore import prove
 
-        for step, oname, same in ([] if only else effect_checks):
-            st, r, _ = prove(d, dom + list(t.pcs), same, timeout=20, tr=tr, label='vacuity guard', parallel=True)
-            if st != 'refuted' and not only:
+        def guard(same):
+            hyps = dom + list(t.pcs)
+            if scen not in STOCHASTIC or same == d.TRUE:
+                return prove(d, hyps, same, timeout=20, tr=tr, label='vacuity guard', parallel=True)[0]
+            # The guard is an existence statement (sat expected) and the general query over logsumexp towers is undecided
+            # within 20 s, so the solver is asked at the witness point first: (1) every variable replaced by its witness
+            # value and every exp/log/... application by its (rounded) witness value - ground rational arithmetic;
+            # (2) variables replaced only, exp/log uninterpreted; (3) the general query.
+            roots = [same] + hyps
+            nodes = d.topo(roots)
+            pin_vars = {i: d.const(d.vals[i]) for i in nodes if d.ops[i] == 'var'}
+            pin_ufs = {i: d.const(float(f'{d.vals[i]:.9g}')) for i in nodes if d.ops[i] == 'uf' and math.isfinite(d.vals[i])}
+            for mapping in ({**pin_vars, **pin_ufs}, pin_vars, None):
+                rs = d.substitute(roots, mapping) if mapping else roots
+                st = prove(d, rs[1:], rs[0], timeout=20, tr=tr, label='vacuity guard', parallel=True)[0]
+                if st == 'refuted':
+                    break
+            return st
+
+        seen_draws = set()
+        for step, oname, sames in ([] if (onlys and scen not in STOCHASTIC) else effect_checks):
+            if ops[oname][0] == 'draw':
+                # common random numbers: repeating a draw of the same shape re-assigns the same value
+                if oname in seen_draws:
+                    continue
+                seen_draws.add(oname)
+            st = 'proved'
+            for same in sames[:32]:  # (x - loc) / scale of a re-drawn x: up to one equal candidate per element
+                st = guard(same)
+                if st == 'refuted':
+                    break
+            if st != 'refuted':
                 tr.inconc(f'{label}: vacuity guard: operation "{oname}" has no observable effect on any evaluated value ({st})')
 
         cm.discharge(tr, d, dom + twin_hyps + list(t.pcs), goals, label, replay=replay, varnodes=V, defined=False, timeout=30,
@@ -405,6 +752,13 @@ def run_task(task, tr):
 
 # ------------------------------------------------------------------ replay (plain tensors, real HKY p_t)
 def replay_history(scen, history, vals, only=None):
+    if scen in STOCHASTIC:
+        with sampler_stub(concrete_noise(vals)):
+            return _replay_history(scen, history, vals, only)
+    return _replay_history(scen, history, vals, only)
+
+
+def _replay_history(scen, history, vals, only=None):
     from torchtree.core.utils import process_objects
     from torchtree.inference.mcmc import operator as opmod
 
@@ -415,10 +769,12 @@ def replay_history(scen, history, vals, only=None):
     import torchtree.evolution.coalescent  # noqa
     import torchtree.evolution.substitution_model.codon  # noqa
     import torchtree.evolution.tree_likelihood  # noqa
+    import torchtree.distributions.deterministic_normal  # noqa
+    import torchtree.variational  # noqa
 
     spec, base, evaluators, ops = SCENARIOS[scen]()
-    if only:
-        evaluators = {only: evaluators[only]}
+    if as_tuple(only):
+        evaluators = {o: evaluators[o] for o in as_tuple(only)}
 
     def mk():
         dic = {}
@@ -426,6 +782,8 @@ def replay_history(scen, history, vals, only=None):
             process_objects(obj, dic)
         for pname, v in base.items():
             dic[pname].tensor = torch.tensor(v, dtype=torch.float64)
+        if 'dq' in dic:
+            dic['dq'].eps = concrete_noise(vals)(tuple(dic['dq'].eps.shape), 'dn_eps')
         return dic
 
     A = mk()
@@ -463,6 +821,8 @@ def replay_history(scen, history, vals, only=None):
                     obj.rsample()
                 finally:
                     obj.dist.rsample = saved
+            elif kind == 'draw':
+                getattr(obj, rng[0])(torch.Size(rng[1]))
             else:
                 oper = opmod.ScalerOperator('scaler', [obj], 1.0, 0.24, 0.5)
                 k += 1
@@ -474,10 +834,10 @@ def replay_history(scen, history, vals, only=None):
                     oper.reject()
                 finally:
                     torch.rand, torch.randint = sr, sri
-            got = ev(A)
             B = mk()
             for pname in base:
                 B[pname].tensor = A[pname].tensor.detach().clone()
+            got = ev(A)
             want = ev(B)
             for en in evaluators:
                 if got[en].shape != want[en].shape or not torch.allclose(got[en], want[en], rtol=1e-9, atol=1e-12, equal_nan=True):
@@ -500,10 +860,37 @@ def tasks_for(tier):
             pairs = sel[:40] if scen == 'phylo' else sel[:20]
             if scen == 'timetree':
                 pairs = list(itertools.product(ops, ops))[::2][:24]
+            if scen == 'variational':
+                pairs = sel[::3][:8]  # the weight of this scenario is on the observer-subset histories below
         for pr in pairs:
             ts.append((scen, pr))
-        # single-observer histories: the same update twice with only one model value read in between
         evs = list(SCENARIOS[scen]()[2])
+        if scen == 'variational':
+            # observer-subset histories over the WHOLE product observer x operation: the observer is evaluated, the
+            # parameter is updated, the observer is evaluated again (twice).  Models the observer reads through
+            # rsample()/sample()/entropy()/log_prob() are never called, i.e. hold an invalid cache all along.
+            for e in evs:
+                for k, o in enumerate(ops):
+                    if tier == 'thorough':
+                        for o2 in ops:
+                            ts.append((scen, (o, o2), e))
+                    else:
+                        ts.append((scen, (o, ops[(k + 1) % len(ops)]), e))
+            if tier == 'thorough':
+                # two observers (every ordered pair): the second evaluation re-draws / validates what the first one left
+                objectives = [e for e in evs if e.split('(')[0] in ('elbo', 'elbo_ent', 'elbo_ms', 'elbo_score', 'klpq', 'klpqi', 'vr',
+                                                                   'cubo', 'elbo_q', 'elbo_dn', 'elbo_dn_ent')]
+                for e1, e2 in itertools.permutations(evs, 2):
+                    if e1 not in objectives and e2 not in objectives:
+                        continue  # two accessors: neither draws nor caches
+                    for o in ops:
+                        ts.append((scen, (o,), (e1, e2)))
+                triples = list(itertools.product(ops, ops, ops))
+                for tpl in triples[::max(1, len(triples) // 120)]:
+                    ts.append((scen, tpl))
+                    ts.append((scen, tpl, evs[(len(ts) // 2) % 11]))
+            continue
+        # single-observer histories: the same update twice with only one model value read in between
         single = [e for e in evs if e.endswith('()')]
         for o in ops:
             for e in (single if tier == 'thorough' else single[:4]):
@@ -521,12 +908,20 @@ def body(chk):
                        'stale cache is an expression that still mentions old symbols; after each operation every model value is '
                        'compared with a freshly built copy holding the same symbols: identical hash-consed expressions close the '
                        'goal syntactically, any difference goes to the solver (sat => replay => violation); a solver vacuity '
-                       'guard per step shows that the operation can change an observed value')
+                       'guard per step shows that the operation can change an observed value; observer-subset histories '
+                       '(one observer, thorough: two) over the variational graph reach the states in which a model in the middle '
+                       'of the notification chain holds an invalid cache (it is read through rsample()/sample()/entropy(), never '
+                       'called) while the objective listening to it holds a valid one')
     chk.total.assumptions |= {'substitution_model.p_t is an uninterpreted function of (branch argument, kappa, frequencies)',
                               'the base Parameter objects hold the current state; a fresh copy is built from the same JSON and '
                               'given the same tensors through the public setter',
                               'optimiser steps are modelled as an in-place write into the held tensor followed by fire_parameter_changed()'}
     chk.total.stubs |= {'Distribution.rsample draw = fresh symbols', 'operator uniform draw = fresh symbol'}
+    chk.total.assumptions |= {'variational scenario: the value a stochastic objective is compared with is the one a freshly built '
+                              'copy computes from the same parameter values AND the same base noise (common random numbers); a '
+                              'cached objective that is not re-drawn while no parameter changed is the CallableModel contract',
+                              'variational scenario, vacuity guard: decided by the solver at the witness point (variables replaced '
+                              'by their witness values, exp/log uninterpreted)'}
     pmap(run_task, tasks_for(chk.tier), chk.total)
 
 
@@ -536,7 +931,11 @@ if __name__ == '__main__':
 
         r = json.load(open(sys.argv[sys.argv.index('--replay') + 1]))
         rp = r['replay']
-        ok, detail = replay_history(rp['scenario'], tuple(rp['history']), rp.get('values', {}))
+        if 'scenario' in rp:
+            scen_, hist_, only_ = rp['scenario'], tuple(rp['history']), None
+        else:
+            scen_, hist_, only_ = parse_label(rp['label'])
+        ok, detail = replay_history(scen_, hist_, rp.get('values', {}), only_)
         print(('REPRODUCED ' if ok else 'NOT REPRODUCED ') + detail)
         sys.exit(1 if ok else 0)
     sys.exit(main_for(PID, body))
